@@ -563,7 +563,19 @@ def run(ck):
             for o in H.origins(rd, pc['args'][1]):
                 x = H.strip_refs(o)
                 while x.get('k') == 'MCall':
-                    chain.append(x.get('m'))
+                    m_ = x.get('m')
+                    if m_ == 'map' and x['args']:
+                        # `.map(|s| s.to_owned())` / `.map(ToOwned::to_owned)` / `.map(String::from)` only re-own the stem
+                        f_ = x['args'][0]
+                        if f_.get('k') == 'Closure':
+                            vs_ = [H.strip_refs(v) for v in H.return_exprs(f_['body'])]
+                            view = len(vs_) == 1 and (vs_[0].get('k') == 'Path' or (vs_[0].get('k') == 'MCall' and vs_[0].get('m') in ('to_owned', 'to_string', 'into', 'as_ref', 'as_str') and H.strip_refs(vs_[0]['recv']).get('k') == 'Path')
+                                                      or (vs_[0].get('k') == 'Call' and (vs_[0].get('def') or '').split('::')[-1] == 'from' and 'String' in (vs_[0].get('def') or '')))
+                        else:
+                            view = f_.get('k') == 'Path' and (f_.get('def') or '').split('::')[-1] in ('to_owned', 'to_string', 'from', 'into', 'as_ref') and \
+                                ('String' in (f_.get('def') or '') or 'ToOwned' in (f_.get('def') or '') or 'ToString' in (f_.get('def') or '') or 'From' in (f_.get('def') or '') or 'Into' in (f_.get('def') or ''))
+                        m_ = 'to_owned' if view else 'map'
+                    chain.append(m_)
                     x = H.strip_refs(x['recv'])
                 root = x
             other = [m for m in chain if m not in ('file_stem', 'ok_or_else', 'ok_or', 'to_owned', 'into', 'as_ref')]
